@@ -341,7 +341,7 @@ class EditCorr:
         got = ",".join(sorted(x for x in names if inside(x)))
         self.compared += 1
         if got != want:
-            out.disagree(hist_of(k), k, "nodes:" + want, "nodes:" + got, layer="edit:nodes-after-renamespace")
+            out.disagree(hist_of(k), k, "nodes:" + got, "nodes:" + want, layer="edit:nodes-after-renamespace")
             self.alive = False
 
     def check_obs(self, live, k, out, hist_of, what):
